@@ -20,7 +20,10 @@ Odd == { <<END>>, <<MSS, 3, 1, 2>>, <<MSS, 5, 1, 2, 3>>, <<WS, 2, 1>>, <<WS, 4, 
 Tokens == Valid \cup Odd
 RECURSIVE Cat(_)
 Cat(ts) == IF ts = <<>> THEN <<>> ELSE Head(ts) \o Cat(Tail(ts))
-TokenSeqs == UNION {[1..n -> Tokens] : n \in 0..MaxTokens}
+\* sequences of three tokens only over a core alphabet (all well formed options + one malformed form per failure class): the full cube of
+\* 37 tokens x every truncation is a million areas that TLC has to build and deduplicate in one thread
+Core == Valid \cup { <<END>>, <<MSS, 3, 1, 2>>, <<WS, 2, 1>>, <<SACKP, 3, 0>>, <<TS, 9>> \o P(8, 3), <<SACK, 9>> \o P(8, 5), <<SACK, 2>>, <<255>>, <<6, 1>> }
+TokenSeqs == UNION {[1..n -> Tokens] : n \in 0..(IF MaxTokens > 2 THEN 2 ELSE MaxTokens)} \cup (IF MaxTokens > 2 THEN [1..3 -> Core] ELSE {})
 Alphabet == {0, 1, 2, 3, 4, 5, 8, 9, 10, 18, 34, 255}
 Areas == UNION {{SubSeq(Cat(t), 1, c) : c \in 0..Len(Cat(t))} : t \in {t \in TokenSeqs : Len(Cat(t)) <= 44}}
          \cup UNION {[1..n -> Alphabet] : n \in 0..3}
